@@ -8,6 +8,7 @@ import z3
 from vt.e1.values import (SArr, SList, STT, SNum, SMaxRank, SInf, INF, SNone, NONE, SOpt, SModule, Unsupported,
                           fresh, fresh_fun, zi, zb, as_conc, is_conc_int)
 from vt.e1.symexec import Ctx, State, Executor, View, FA, Obligation, sym_elem_fn
+from vt.e1 import heap
 
 REPO = os.environ.get('VERIF_REPO', '/repo')
 Z3_TIMEOUT_MS = int(os.environ.get('VERIF_Z3_TIMEOUT_MS', '20000'))
@@ -45,6 +46,39 @@ def positive_dims(t):
 def lists_distinct(t):
     refs = [t.row_dims.ref, t.col_dims.ref, t.ranks.ref, t.cores.ref]
     return z3.Distinct(*refs)
+
+
+def valid(t):
+    """type invariant of every TT value passed between functions"""
+    return z3.And(wf(t), positive_dims(t), lists_distinct(t))
+
+
+def _tt_items(v):
+    """TT values inside a returned tuple / concrete list"""
+    items = v.items if isinstance(v, SList) and v.items is not None else v if isinstance(v, (tuple, list)) else []
+    return [x for x in items if isinstance(x, STT) and all(isinstance(x.f.get(q), SList) for q in ('row_dims', 'col_dims', 'ranks', 'cores'))]
+
+
+def type_domain(name, v, mark0):
+    """what a contract's setup assumes about a parameter because of its *type*: validity (obliged at call sites) and the
+    allocation model (`alloc:` - every id in existence at a call is below the callee's entry watermark) / NumPy model
+    (`model:` - array dimensions are non-negative).  `alloc:` and `model:` clauses are not obliged at call sites."""
+    if isinstance(v, STT):
+        if not all(isinstance(v.f.get(k), SList) for k in ('row_dims', 'col_dims', 'ranks', 'cores')):
+            return
+        yield 'valid(%s)' % name, valid(v)
+        yield 'alloc:%s' % name, z3.And(*[z3.And(zi(r) >= 0, zi(r) < mark0) for r in (v.ref, v.row_dims.ref, v.col_dims.ref, v.ranks.ref, v.cores.ref)],
+                                        FA(0, zi(v.order), lambda j: z3.And(lst_get(v.cores, j).buf >= 0, lst_get(v.cores, j).buf < mark0)))
+    elif isinstance(v, SList):
+        if v.kind in ('int', 'num', 'bool', 'arr', 'ttref') or v.kind.startswith('optarr'):
+            yield 'alloc:%s' % name, z3.And(v.ref >= 0, v.ref < mark0)
+        if v.kind == 'arr' and v.items is None:
+            yield 'alloc:%s[]' % name, FA(0, v.len_term(), lambda j: z3.And(lst_get(v, j).buf >= 0, lst_get(v, j).buf < mark0))
+            yield 'model:%s[]' % name, FA(0, v.len_term(), lambda j: z3.And(*[x >= 0 for x in lst_get(v, j).shape]))
+        yield 'model:len(%s)' % name, v.len_term() >= 0
+    elif isinstance(v, SArr):
+        yield 'alloc:%s' % name, z3.And(v.buf >= 0, v.buf < mark0)
+        yield 'model:%s' % name, z3.And(*[x >= 0 for x in v.shape])
 
 
 def fresh_id(x, mark):
@@ -107,6 +141,7 @@ class SpecView:
 
     def __init__(self, a, o, mark0, inst, state=None):
         self.a, self.o, self.mark0, self.inst, self.state = a, o, mark0, inst, state
+        self.at_call = False      # True when the clauses are *assumed* at a call site (ghost-only clauses are then skipped)
 
 
 def buf_predicate(fams):
@@ -149,6 +184,17 @@ class Contract:
         raise NotImplementedError
 
     def requires(self, S):
+        return []
+
+    def domain(self, S):
+        """Everything `setup` assumes about the parameters beyond `requires`.  Machine-checked on every run:
+        domain /\ requires /\ not(exceptional) must imply every assumption `setup` made (obligation `domain-covers-setup`),
+        and every clause that is not an `alloc:` / `model:` fact is an obligation at every call site."""
+        for k, v in S.a.items():
+            yield from type_domain(k, v, S.mark0)
+        yield from self.domain_extra(S)
+
+    def domain_extra(self, S):
         return []
 
     def ensures(self, S, res):
@@ -197,6 +243,10 @@ class Contract:
         A = self.bind(args, kw)
         inst = self.call_inst(A)
         S = SpecView(A, {k: snapshot(v) for k, v in A.items()}, state.mark, inst, state)
+        S.at_call = True
+        for lbl, g in self.domain(S):
+            if not lbl.startswith(('alloc:', 'model:')):
+                ex.ctx.oblige(state, 'pre[%s]:domain:%s' % (self.name, lbl), line, g)
         for lbl, g in self.requires(S):
             ex.ctx.oblige(state, 'pre[%s]:%s' % (self.name, lbl), line, g)
         for exc, cond in self.exceptional(S).items():
@@ -209,6 +259,7 @@ class Contract:
             for r2 in ctx.modifies_lists:
                 allowed = z3.Or(allowed, zi(r) == r2)
             ctx.oblige(state, 'frame:callee[%s]-mutates-object' % self.name, line, allowed)
+            heap.guard_list(ex, state, r, line)
         for (lo, hi, f) in fams:
             def ok(j, f=f):
                 b = f(j)
@@ -217,9 +268,27 @@ class Contract:
                     a = z3.Or(a, ctx.modifies_bufs(b, state))
                 return a
             ctx.oblige(state, 'frame:callee[%s]-writes-buffers' % self.name, line, FA(lo, hi + 1, ok))
+            heap.guard_buf_family(ex, state, lo, hi, f, line)
         res = self.effect(ex, state, A, inst, line)
+        if isinstance(res, STT):
+            # allocation model: every id in existence is below the current watermark
+            m = state.mark
+            state.assume(z3.And(res.ref < m, res.row_dims.ref < m, res.col_dims.ref < m, res.ranks.ref < m, res.cores.ref < m))
+            cs = res.cores
+            if cs.kind == 'arr' and not getattr(cs, 'transients', None):
+                state.assume(FA(0, zi(res.order), lambda j: lst_get(cs, j).buf < m))
         for item in self.ensures(S, res):
+            if item[1] is False:
+                raise Unsupported('contract %s: clause %s is literally False at a call site (line %d)' % (self.name, item[0], line))
             state.assume(item[1])
+        if getattr(self, 'auto_valid', True):
+            if isinstance(res, STT):
+                state.assume(valid(res))
+            for x in _tt_items(res):
+                state.assume(valid(x))
+            for k, v in A.items():
+                if isinstance(v, STT) and v is not res and all(isinstance(v.f.get(q), SList) for q in ('row_dims', 'col_dims', 'ranks', 'cores')):
+                    state.assume(valid(v))
         return res
 
 
@@ -256,13 +325,20 @@ MODULE_GLOBALS = {'math': SModule('math'), 'sle': SModule('sle'), 'tt': SModule(
                   '_time': SModule('_time'), 'TT': ('TTclass',), 'sp': SModule('sp')}
 
 
+INSTANCE_BUDGET_S = float(os.environ.get('VERIF_E1_INSTANCE_BUDGET_S', '240'))
+
+
 def check_obligation(ctx, ob):
-    """Discharges one obligation.  Wall-clock budgets are retried once with a six-fold budget when the solver gives up, so
+    """Discharges one obligation.  Wall-clock budgets are retried once with a three-fold budget when the solver gives up, so
     that a busy machine (all cores loaded) does not turn a discharged obligation into `undecided`."""
     from vt.e1 import calls as _calls
     first = Z3_TIMEOUT_MS if ob.expect != 'sat' else min(Z3_TIMEOUT_MS, 5000)
     total = 0.0
-    for budget in (first, 6 * first):
+    spent = getattr(ctx, 'solver_time', 0.0)
+    # once a function instance has used its solver budget (only happens when many obligations are undecidable, i.e. on code that
+    # left the contract), the remaining obligations get a short budget: they end as `undecided`, never as a verdict
+    budgets = (first, 3 * first) if spent < INSTANCE_BUDGET_S else (2000,)
+    for budget in budgets:
         s = z3.Solver()
         s.set('timeout', budget)
         for a in list(ctx.axioms) + list(_calls.AXIOMS):
@@ -276,6 +352,7 @@ def check_obligation(ctx, ob):
         if r != z3.unknown:
             break
     dt = total
+    ctx.solver_time = spent + total
     model = ''
     if r == z3.sat:
         try:
@@ -299,6 +376,8 @@ def verify_function(contract, inst, registry):
             except KeyError:
                 c.param_names = []
     ctx = Ctx(contract, inst, registry, contract.name)
+    if getattr(contract, 'uses_heap', False):
+        ctx.axioms += heap.axioms()
     loops = [n for n in ast.walk(node) if isinstance(n, (ast.For, ast.While))]
     loops.sort(key=lambda n: (n.lineno, n.col_offset))
     ctx.loop_ordinals = {id(n): k for k, n in enumerate(loops)}
@@ -310,7 +389,28 @@ def verify_function(contract, inst, registry):
         state.env.update(params)
         state.old = {k: snapshot(v) for k, v in params.items()}
         S0 = SpecView(params, state.old, ctx.mark0, inst, state)
+        setup_pc = list(state.pc)
+        dom = list(contract.domain(S0))
         pre = list(contract.requires(S0))
+        exc0 = contract.exceptional(S0)
+        # modular soundness guard: whatever `setup` assumed must follow from what call sites are obliged to establish
+        hyp = [g for _, g in dom] + [g for _, g in pre] + [z3.Not(zb(c)) for c in exc0.values() if not isinstance(c, bool) or c]
+        hyp = [h if not isinstance(h, bool) else z3.BoolVal(h) for h in hyp]
+        for n_a, a in enumerate(setup_pc):
+            if a.get_id() in ctx.model_facts:
+                continue
+            sc = z3.Solver()
+            sc.set('timeout', Z3_TIMEOUT_MS)
+            for h in hyp:
+                sc.add(h)
+            sc.add(z3.Not(a))
+            r = sc.check()
+            if r != z3.unsat:
+                res['unsupported'] = ('contract gap (not a property verdict): setup assumes %s, which neither domain() nor requires() states, so call sites '
+                                      'would not check it [%s]' % (a.sexpr()[:400].replace('\n', ' '), r))
+                return res
+        for lbl, g in dom:
+            state.assume(g)
         for lbl, g in pre:
             state.assume(g)
         # vacuity guard: the precondition must be satisfiable
@@ -347,6 +447,15 @@ def verify_function(contract, inst, registry):
                 ctx.oblige(st, 'raises:%s-when-specified' % exc, 0, z3.Not(zb(cond)))
             for item in contract.ensures(S, val):
                 ctx.oblige(st, 'post:%s' % item[0], 0, item[1])
+            if o.kind == 'return' and getattr(contract, 'auto_valid', True):
+                # type invariant at exit: the result and every TT parameter (also a mutated `self`) are valid TT values
+                if isinstance(val, STT):
+                    ctx.oblige(st, 'post:valid(result)', 0, valid(val))
+                for q, x in enumerate(_tt_items(val)):
+                    ctx.oblige(st, 'post:valid(result[%d])' % q, 0, valid(x))
+                for k, v in S.a.items():
+                    if isinstance(v, STT) and all(isinstance(v.f.get(q), SList) for q in ('row_dims', 'col_dims', 'ranks', 'cores')) and v is not val:
+                        ctx.oblige(st, 'post:valid(%s)' % k, 0, valid(v))
             can = contract.canary(S, val)
             if can is not None:
                 ob = Obligation('canary#%d' % n_ret, 'canary', 0, st.pc, can, expect='sat')
@@ -360,6 +469,7 @@ def verify_function(contract, inst, registry):
         res['engine_error'] = True
         return res
     canary_results = []
+    n_refute = 0
     for ob in ctx.obls:
         if ob.expect == 'sat' and 'sat' in canary_results:
             continue            # one refuted canary per function instance is the engine sanity check; the rest are skipped
@@ -372,9 +482,66 @@ def verify_function(contract, inst, registry):
                 continue
             status = OK if r == 'sat' else (FAIL if r == 'unsat' else UNDEC)
             detail = 'canary (a deliberately false postcondition) %s' % ('refuted as required' if r == 'sat' else 'NOT refuted: %s' % r)
+            if r == 'unknown':
+                # the solver cannot build a model of the (quantified) path condition.  Weaker guard: the path condition must not be
+                # refutable within the full obligation budget - a contradictory path condition is what would make proofs vacuous.
+                r2 = _sat(ctx, ob.pc, Z3_TIMEOUT_MS)
+                if r2 == 'unsat':
+                    status, detail = UNDEC, 'path condition at return is contradictory: every postcondition would hold vacuously'
+                else:
+                    status, detail = OK, 'INCONCLUSIVE vacuity guard: canary neither refuted nor proved (%s); no contradiction derivable from the path condition within %d ms' % (r2, Z3_TIMEOUT_MS)
         else:
             status = OK if r == 'unsat' else (FAIL if r == 'sat' else UNDEC)
             detail = ob.detail + ((' | counter-model: ' + model) if r == 'sat' else '') + ((' | solver: ' + r) if r not in ('sat', 'unsat') else '')
+            if r == 'unknown' and n_refute < 3:
+                # no model of the quantified path condition could be built.  Second way to refute: the goal is *false on every
+                # execution that reaches this point* (path condition /\ goal is unsatisfiable) while the path condition itself is
+                # not refutable within the budget.
+                n_refute += 1
+                if _sat(ctx, list(ob.pc) + [ob.goal], 10000) == 'unsat' and _sat(ctx, ob.pc, 10000) != 'unsat':
+                    status = FAIL
+                    detail = ob.detail + ' | refuted: the path condition implies the negation of this obligation (no model built; path condition not refutable within 10 s)'
         res['obligations'].append({'name': ob.name, 'kind': ob.kind, 'line': ob.line, 'status': status, 't': dt, 'detail': detail})
+    # vacuity guard for loop bodies: if the start of an arbitrary iteration is reachable, at least one end of the body must be
+    # (a contradictory path condition inside the body would make every preservation obligation pass vacuously)
+    if not ctx.muted:
+        for rec in ctx.reach:
+            t1 = time.time()
+            r0 = _sat(ctx, rec['start'], 4000)
+            if r0 != 'sat':
+                continue            # dead loop in this instance (or undecided start): nothing to conclude
+            ends = []
+            for pc in rec['ends']:
+                ends.append(_sat(ctx, pc, 4000))
+                if ends[-1] == 'sat':
+                    break
+            if 'sat' not in ends and 'unknown' in ends:
+                ends = []
+                for pc in rec['ends']:
+                    ends.append(_sat(ctx, pc, 15000))
+                    if ends[-1] == 'sat':
+                        break
+            if 'sat' in ends:
+                status, detail = OK, 'body of loop `%s` reachable to its end' % rec['key']
+            elif ends and all(e == 'unsat' for e in ends):
+                status, detail = UNDEC, 'every path through the body of loop `%s` has a contradictory path condition: preservation obligations are vacuous' % rec['key']
+            elif not ends:
+                continue
+            else:
+                # satisfiability of a quantified path condition is not always decidable for the solver: recorded, not a verdict
+                status, detail = OK, 'INCONCLUSIVE vacuity guard: reachability of the end of the body of loop `%s` could not be decided (%s)' % (rec['key'], ends)
+            res['obligations'].append({'name': 'reach[%s]:body-end@%d' % (rec['key'], rec['line']), 'kind': 'reach', 'line': rec['line'], 'status': status,
+                                       't': time.time() - t1, 'detail': detail})
     res['t'] = time.time() - t0
     return res
+
+
+def _sat(ctx, pc, timeout=10000):
+    from vt.e1 import calls as _calls
+    s = z3.Solver()
+    s.set('timeout', timeout)
+    for a in list(ctx.axioms) + list(_calls.AXIOMS):
+        s.add(a)
+    for p in pc:
+        s.add(p)
+    return str(s.check())
